@@ -120,7 +120,7 @@ FIELDS = {
     'StopIf': {'condfunc': Param('dyn')},
     'Padded': {'subcon': Sub(), 'length': Param('int'), 'pattern': Bytes1()},
     'Aligned': {'subcon': Sub(), 'modulus': Param('modulus'), 'pattern': Bytes1()},
-    'Pointer': {'subcon': Sub(), 'offset': Param('int'), 'stream': Param('none')},
+    'Pointer': {'subcon': Sub(), 'offset': Param('int'), 'stream': Param('optstream')},
     'Peek': {'subcon': Sub()},
     'OffsettedEnd': {'subcon': Sub(), 'endoffset': Param('int')},
     'Seek': {'at': Param('int'), 'whence': Param('int')},
@@ -161,6 +161,11 @@ def make_field(eng, st, iface, cls, name, f):
         v.returns = f.kw.get('returns')
         return v
     if k == 'param':
+        if f.kw['pkind'] == 'optstream':
+            # Pointer(..., stream=): None, or (a context lambda giving) another stream.  The other stream is a second,
+            # unrelated stream object in an arbitrary state; 'redirected' says whether the parameter designates it.
+            st.ghost['otherstream'] = streams.symbolic_stream(eng, st, 'otherstream', getattr(eng, 'setup_stream_model', 'bytesio'))
+            st.ghost['redirected'] = fresh('redirected', t.BOOL)
         var = getattr(eng, 'variant', None)
         if isinstance(var, dict) and name in var:
             # a concrete parameter value (finite parameter domain enumerated by variants)
@@ -171,6 +176,9 @@ def make_field(eng, st, iface, cls, name, f):
         iface.current_sublist = v.ident
         return v
     if k == 'bytes':
+        var = getattr(eng, 'variant', None)
+        if isinstance(var, dict) and (name + '_len') in var:
+            return eng.fresh_bytes(st, 'self_' + name, ln=I(var[name + '_len']))
         if 'length' in f.kw:
             return eng.fresh_bytes(st, 'self_' + name, ln=I(f.kw['length']))
         return eng.fresh_bytes(st, 'self_' + name)
@@ -231,6 +239,7 @@ def method_setup(cls, extra_fields=None):
             table.update(extra_fields)
         iface.fmt_cache = {}
         iface.current_sublist = None
+        eng.setup_stream_model = stream_model
         for name, f in sorted(table.items(), key=lambda kv: kv[1].kind != 'sublist'):
             fields[name] = make_field(eng, st, iface, cls, name, f)
         selfv = VObj(cls, fields, ident=fresh('self', t.INT))
